@@ -44,15 +44,103 @@ Lemma lor_high_low a b k : 0 <= k -> 0 <= b < 2^k -> Z.lor (a * 2^k) b = a * 2^k
 Proof. intros. apply lor_disjoint_add. now apply land_high_low. Qed.
 
 (* finite sweep support: every z in [0,n) is in the enumerated list *)
-Definition zrange (n : nat) : list Z := map Z.of_nat (seq 0 n).
+Fixpoint zrange_from (start : Z) (n : nat) : list Z :=
+  match n with O => nil | S k => start :: zrange_from (start + 1) k end.
+Definition zrange (n : nat) : list Z := zrange_from 0 n.
+
+Lemma in_zrange_from n : forall start z, start <= z < start + Z.of_nat n -> In z (zrange_from start n).
+Proof.
+  induction n as [|k IH]; intros start z H.
+  - lia.
+  - cbn [zrange_from]. destruct (Z.eq_dec z start) as [->|Hne]; [now left|right].
+    apply IH. lia.
+Qed.
 
 Lemma in_zrange n z : 0 <= z < Z.of_nat n -> In z (zrange n).
-Proof.
-  intros H. unfold zrange. apply in_map_iff. exists (Z.to_nat z). split.
-  - lia.
-  - apply in_seq. lia.
-Qed.
+Proof. intros H. apply in_zrange_from. lia. Qed.
 
 Lemma forallb_zrange (P : Z -> bool) n :
   forallb P (zrange n) = true -> forall z, 0 <= z < Z.of_nat n -> P z = true.
 Proof. intros H z Hz. rewrite forallb_forall in H. apply H. now apply in_zrange. Qed.
+
+(* ---- single-bit masks and disjoint unions ---- *)
+Lemma land_bit v k : 0 <= k -> Z.land v (2^k) = ((v / 2^k) mod 2) * 2^k.
+Proof.
+  intros Hk. apply Z.bits_inj'. intros i Hi.
+  rewrite Z.land_spec, Z.pow2_bits_eqb by lia.
+  pose proof (testbit_div_mod v k Hk) as Hb.
+  assert (Hr : 0 <= (v / 2^k) mod 2 < 2) by (apply Z.mod_pos_bound; lia).
+  destruct (Z.eq_dec ((v / 2^k) mod 2) 1) as [E|E].
+  - rewrite E, Z.mul_1_l, Z.pow2_bits_eqb by lia. rewrite E in Hb. cbn in Hb.
+    destruct (Z.eqb_spec k i) as [<-|]; [now rewrite Hb|apply andb_false_r].
+  - assert (E0 : (v / 2^k) mod 2 = 0) by lia. rewrite E0, Z.mul_0_l, Z.bits_0. rewrite E0 in Hb. cbn in Hb.
+    destruct (Z.eqb_spec k i) as [<-|]; [now rewrite Hb|apply andb_false_r].
+Qed.
+
+Lemma lor_low_high lo h k : 0 <= k -> 0 <= lo < 2^k -> Z.lor lo (h * 2^k) = lo + h * 2^k.
+Proof. intros. rewrite Z.lor_comm, lor_high_low by assumption. lia. Qed.
+
+Lemma lor_even_bit x y : x mod 2 = 0 -> 0 <= y <= 1 -> Z.lor x y = x + y.
+Proof.
+  intros Hx Hy. assert (x = (x / 2) * 2^1) as -> by (change (2^1) with 2; pose proof (Z.div_mod x 2); lia).
+  apply lor_high_low; [lia|change (2^1) with 2; lia].
+Qed.
+
+(* bounds of bitwise operations on n-bit values *)
+Lemma land_range a b n : 0 <= n -> 0 <= a < 2^n -> 0 <= b < 2^n -> 0 <= Z.land a b < 2^n.
+Proof.
+  intros Hn Ha Hb. split; [apply Z.land_nonneg; lia|].
+  destruct (Z.eq_dec (Z.land a b) 0) as [->|Hz]; [lia|].
+  assert (Hnp : 0 < n).
+  { destruct (Z.eq_dec n 0) as [->|]; [|lia]. change (2^0) with 1 in *. assert (a = 0) by lia. assert (b = 0) by lia. subst. now rewrite Z.land_0_l in Hz. }
+  apply Z.log2_lt_pow2; [assert (0 <= Z.land a b) by (apply Z.land_nonneg; lia); lia|].
+  eapply Z.le_lt_trans; [apply Z.log2_land; lia|].
+  apply Z.min_lt_iff. left.
+  destruct (Z.eq_dec a 0) as [->|]; [cbn; lia|]. apply Z.log2_lt_pow2; lia.
+Qed.
+Lemma lor_range a b n : 0 <= n -> 0 <= a < 2^n -> 0 <= b < 2^n -> 0 <= Z.lor a b < 2^n.
+Proof.
+  intros Hn Ha Hb. split; [apply Z.lor_nonneg; lia|].
+  destruct (Z.eq_dec (Z.lor a b) 0) as [->|Hz]; [lia|].
+  assert (Hnp : 0 < n).
+  { destruct (Z.eq_dec n 0) as [->|]; [|lia]. change (2^0) with 1 in *. assert (a = 0) by lia. assert (b = 0) by lia. subst. now rewrite Z.lor_0_l in Hz. }
+  apply Z.log2_lt_pow2; [assert (0 <= Z.lor a b) by (apply Z.lor_nonneg; lia); lia|].
+  rewrite Z.log2_lor by lia. apply Z.max_lub_lt.
+  - destruct (Z.eq_dec a 0) as [->|]; [cbn; lia|]. apply Z.log2_lt_pow2; lia.
+  - destruct (Z.eq_dec b 0) as [->|]; [cbn; lia|]. apply Z.log2_lt_pow2; lia.
+Qed.
+Lemma lxor_range a b n : 0 <= n -> 0 <= a < 2^n -> 0 <= b < 2^n -> 0 <= Z.lxor a b < 2^n.
+Proof.
+  intros Hn Ha Hb. split; [apply Z.lxor_nonneg; lia|].
+  destruct (Z.eq_dec (Z.lxor a b) 0) as [->|Hz]; [lia|].
+  assert (Hnp : 0 < n).
+  { destruct (Z.eq_dec n 0) as [->|]; [|lia]. change (2^0) with 1 in *. assert (a = 0) by lia. assert (b = 0) by lia. subst. now rewrite Z.lxor_0_l in Hz. }
+  apply Z.log2_lt_pow2; [assert (0 <= Z.lxor a b) by (apply Z.lxor_nonneg; lia); lia|].
+  eapply Z.le_lt_trans; [apply Z.log2_lxor; lia|]. apply Z.max_lub_lt.
+  - destruct (Z.eq_dec a 0) as [->|]; [cbn; lia|]. apply Z.log2_lt_pow2; lia.
+  - destruct (Z.eq_dec b 0) as [->|]; [cbn; lia|]. apply Z.log2_lt_pow2; lia.
+Qed.
+
+Lemma land1_mod2 x : Z.land x 1 = x mod 2.
+Proof. change 1 with (2^1 - 1). apply land_ones_mod. lia. Qed.
+
+(* ---- complementary masks ---- *)
+Lemma land_split x M m n :
+  Z.land M m = 0 -> Z.lor M m = 2^n - 1 -> 0 <= n -> 0 <= x < 2^n -> Z.land x M + Z.land x m = x.
+Proof.
+  intros Hd Hu Hn Hx.
+  rewrite <- lor_disjoint_add.
+  - rewrite <- Z.land_lor_distr_r, Hu, land_ones_mod by lia. apply Z.mod_small. lia.
+  - rewrite Z.land_assoc, (Z.land_comm (Z.land x M) x), Z.land_assoc, Z.land_diag, <- Z.land_assoc, Hd.
+    apply Z.land_0_r.
+Qed.
+
+(* mask of w ones shifted left by k *)
+Lemma land_shifted_mask x b k : 0 <= k -> Z.land x (b * 2^k) = Z.land (x / 2^k) b * 2^k.
+Proof.
+  intros Hk. apply Z.bits_inj'. intros i Hi. rewrite Z.land_spec.
+  destruct (Z.lt_ge_cases i k).
+  - rewrite !Z.mul_pow2_bits_low by lia. apply andb_false_r.
+  - rewrite !Z.mul_pow2_bits by lia. rewrite Z.land_spec, Z.div_pow2_bits by lia.
+    replace (i - k + k) with i by lia. reflexivity.
+Qed.
